@@ -340,6 +340,38 @@ def case_c20(acc, text, indents, with_comments=False):
                         w, 'output %r: %s' % (P, detail))
 
 
+def case_c20_reuse(acc, text1, cut, text2, ind):
+    """one printer OBJECT: a print of text1 abandoned after `cut` fragments,
+    then a complete print of text2, whose indentation is judged"""
+    from calmjs.parse.unparsers.es5 import pretty_printer
+    o1 = I.run_parse(text1, keep_node=True)
+    o2 = I.run_parse(text2, keep_node=True)
+    acc.cases += 1
+    if o1.kind != 'accept' or o2.kind != 'accept':
+        return
+    printer = pretty_printer(indent_str=ind)
+    gen = printer(o1.node)
+    n = 0
+    for f in gen:
+        n += 1
+        if n >= cut:
+            break
+    gen.close()
+    P = ''.join(f.text for f in printer(o2.node))
+    ref = R2.parse(P)
+    if ref.verdict != 'accept':
+        acc.out['output-not-readable-by-reference (C01 reports it)'] += 1
+        return
+    acc.traces += 1
+    acc.nontrivial += 1
+    acc.out['judged-after-abandoned-call'] += 1
+    w = {'text': text2, 'indent': ind, 'after_abandoned': text1, 'cut': cut}
+    for sp, detail in check_indentation(P, ind, ref):
+        acc.bag.add('C20|after-abandoned-call|%s|indent=%s' % (
+            sp, INDENT_NAME.get(ind, '?')), w,
+            'output %r: %s' % (P, detail))
+
+
 # ------------------------------------------------------------------ drivers
 def texts_for(tier, with_leaves=True):
     """[(text, group)]"""
